@@ -13,7 +13,16 @@ Ties (re-run on every check):
      scenarios: all 8 single-bit flips) is altered and fed to the receiver in the state in which it
      is about to receive the genuine packet: no event, no output, no visible state change, then the
      genuine packet must be accepted; finally a packet protected by the reference is accepted by
-     the real endpoint."""
+     the real endpoint;
+ (d) key phases (coq/model/KeyPhase.v, exec_keyphase): two real CryptoPairs back to back run the model's events (local update
+     request, send, delivery of any earlier packet, injected inauthentic packets) -- verdicts and (generation, phase, pending
+     flag) of both pairs token by token; a rejected packet must leave the pair's complete attribute digest unchanged, and a pair's
+     digest must equal that of a pair brought to the same abstract state by local updates alone (the model's state is ALL the
+     state there is) -- harness/props/c02_keyphase.py;
+ (e) no LATER effect (harness/props/c02_twin.py): paired deterministic runs on harness/sim with and without one inauthentic
+     packet; the whole continuation (key updates of both sides in both orders over several generations, connection-id changes,
+     data) must be identical on the wire, in the events and in the accept/drop record; complete state digests of the packet
+     protection objects (every altered copy) and of the whole connection (every packet once the handshake is confirmed)."""
 import collections
 import datetime
 import io
@@ -32,6 +41,11 @@ TRUSTED_BASE = [
     "harness/props/c02.py + c02_ref.py (independent RFC 9001/9369 implementation; decides what 'agree' means) and the "
     "`cryptography` package primitives (AES-GCM, ChaCha20-Poly1305, AES-ECB, ChaCha20, HMAC) used as oracles",
     "tools/gen/c02_pure.py (Python-ast -> Gallina translator for decode_packet_number; fails closed)",
+    "harness/sim (Pair, deterministic os.urandom / key generation / virtual time) for the paired runs; c02_twin.digest walks instance "
+    "dictionaries (an object keeping state outside its __dict__ -- C extension, module global -- is only seen through behaviour: "
+    "AEAD/HeaderProtection by a probe encryption, everything else by the paired-run continuation)",
+    "modelled, not verified: crypto.py's key-phase handling (CryptoContext.decrypt_packet's choice of keys, next_key_phase, "
+    "apply_key_phase, CryptoPair.update_key/_update_key/key_phase) as coq/model/KeyPhase.v with key material abstracted to its generation",
     "modelled, not verified: _crypto.c AEAD nonce / HeaderProtection_apply / _remove and crypto.py "
     "CryptoContext.encrypt_packet / decrypt_packet as Gallina functions; key derivation (HKDF labels, salts) is tied only "
     "by the differential and the RFC vectors, not modelled in Coq; OpenSSL is outside",
@@ -39,12 +53,17 @@ TRUSTED_BASE = [
 ASSUMPTIONS = [
     "H-AEAD (Section hypotheses of altered_rejected / retry_tag_binds): open k n a c = Some p <-> c = seal k n a p "
     "(ideal AEAD; the real forgery probability is 2^-128, not 0)",
+    "key_generations_in_step / genuine_packet_verdict / fresh_packet_accepted: an endpoint requests a key update only while it is not "
+    "ahead of its peer (RFC 9001 6.1; aioquic leaves that to the application) and injected packets are inauthentic (ideal AEAD)",
     "the header-protection mask is an arbitrary function of the hp key and the 16-byte sample (Section variable)",
     "hp_roundtrip is stated for packets whose sample lies inside the packet (pn length + ciphertext >= 20) and "
     "total length <= 1500: outside that _crypto.c reads/writes out of bounds (property C04)",
 ]
 
 MOD64 = 1 << 64
+# QuicNetworkPath.bytes_received counts every datagram on a not yet validated path, authentic or not (RFC 9000 8.1: the
+# anti-amplification credit is defined that way); the only attribute excluded from the whole-connection digest besides the logs
+HANDSHAKE_SKIP = ("bytes_received",)
 PN_MAX = 1 << 62
 
 # Findings of this check on the pinned tree.  They belong in the shared known_findings.json (see
@@ -840,8 +859,9 @@ class Scenario:
         s0 = snap(conn)
         f0 = T.crypto_fast(conn)                 # protection state, every attribute (per altered copy)
         c0 = T.crypto_digest(conn, deep=True)    # the same, recursively and by behaviour (per packet)
-        settled = conn._handshake_confirmed and s0["state"] == "CONNECTED"
-        w0 = T.conn_digest(conn) if settled else None      # everything the connection holds except its logs (per packet)
+        # everything the connection holds except its logs (per packet); not for a server that has seen nothing yet (it builds its
+        # receive machinery on the first datagram, before authentication: "fresh_server_setup" below)
+        w0 = None if (x.is_server and s0["state"] == "FIRSTFLIGHT") else T.conn_digest(conn, also_skip=HANDSHAKE_SKIP)
         seen_before = self.seen_types[(direction, p["type"])]
         self.seen_types[(direction, p["type"])] += 1
         for pos in range(len(raw)):
@@ -896,6 +916,7 @@ class Scenario:
                     x.pending += [d for d, _ in out]
                     st["key_unavailable_probe"] += 1
                     s0, out, diff = s1, [], {}
+                    w0 = None        # the one allowed reaction (declares its Initial lost, retransmits): not compared for this packet
                 if ev is not None or out or diff:
                     case = self.case_of(x, direction, p["type"], idx, pos, m, raw)
                     what = "altered %s packet (byte %d xor 0x%02x) was not discarded silently: drop triggers=%s event=%s datagrams=%d state changes=%s" % (
@@ -925,7 +946,7 @@ class Scenario:
             return
         if w0 is not None:
             st["connection_digests"] += 1
-            w1 = T.conn_digest(conn)
+            w1 = T.conn_digest(conn, also_skip=HANDSHAKE_SKIP)
             if w1 != w0:
                 self.violation("the altered copies of a %s packet changed the receiver's state: %s" % (p["type"], "; ".join(T.digest_diff(w0, w1))),
                                {"site": "receive_datagram", "rule": "rejected-packet-changed-state", "type": p["type"]},
@@ -1187,10 +1208,9 @@ def run(ctx):
         pt.stats["outcome_histogram"]["%s/v%d/pnl%d/phase%s%s" % (c["suite"][:7], c["version"], c["pnl"], c["sphase"], "/corrupt" if c.get("corrupt") else "")] += 1
     kp.run(corr.load_corpus("C02", "keyphase"), "corpus")
     kcases = K.gen_cases(_SELF, rng, ctx.n(1500, 12000), 3 if not ctx.thorough else 4)
-    for i in range(0, len(kcases), 1000):
-        kp.run(kcases[i:i + 1000])
-        for c in kcases[i:i + 1000]:
-            kp.stats["outcome_histogram"]["max-generation-%d" % max([0] + [t for t in K.trace(_SELF, c)[0][-10:] if isinstance(t, int)])] += 1
+    kp.run(kcases)
+    for c in kcases:
+        kp.stats["outcome_histogram"]["max-generation-%d" % max([0] + [t for t in K.trace(_SELF, c)[0][-10:] if isinstance(t, int)])] += 1
     st = run_connection(ctx, known, extra)
     tw = run_twin(ctx, known, extra)
     extra["known_finding_cases"] = dict(known.hits)
